@@ -381,6 +381,12 @@ func OpenReader(path string) (*Reader, error) {
 				break
 			}
 
+			// Whatever happens to this filter, the next one starts behind it.
+			// (Skipping a filter without advancing made the loop parse filter
+			// bytes as the next header.)
+			filterData := bloomFilterData[pos : pos+filterSize]
+			pos += filterSize
+
 			// Create a temporary file to load the bloom filter
 			tempFile, err := os.CreateTemp("", "bloom-filter-*.tmp")
 			if err != nil {
@@ -389,7 +395,7 @@ func OpenReader(path string) (*Reader, error) {
 			tempPath := tempFile.Name()
 
 			// Write the bloom filter data to the temp file
-			_, err = tempFile.Write(bloomFilterData[pos : pos+filterSize])
+			_, err = tempFile.Write(filterData)
 			tempFile.Close()
 			if err != nil {
 				os.Remove(tempPath)
@@ -409,9 +415,6 @@ func OpenReader(path string) (*Reader, error) {
 				blockOffset: blockOffset,
 				filter:      filter,
 			})
-
-			// Move to the next filter
-			pos += filterSize
 		}
 	}
 
